@@ -484,6 +484,7 @@ def run_mesh(P, L, c):
     size = rand_size(rng, t, s)
     meas0, Iu0 = ig.primitive(t, size, shell)
     errs = []
+    abs_hit = False
     gpos = rng.normal(size=3) * 0.3 * s
     q = rng.normal(size=4)
     GR = so3.quat_to_mat(q)
@@ -520,7 +521,10 @@ def run_mesh(P, L, c):
         ref = reference([{"geoms": geoms, "inertial": None}], comp)[0]
         ext = s
         rho = (g["mass"] / g["poly"][0]) if "mass" in g else dens
+        hits0 = P.counters.get("abs_eps_hits", 0)
         compare_body(P, m, 1, ref, "mesh-vs-polyhedron", wit, itol=2e-5, extent=ext, kinds=[t, mode], abs_unit=max(1.0, rho))
+        if P.counters.get("abs_eps_hits", 0) > hits0:
+            abs_hit = True
         # primitive in the same pose: un-scaled tessellation only (scale changes the shape)
         if np.all(tr["scale"] == 1) and not c.get("extra_geom"):
             R = so3.quat_to_mat(m["body_iquat"][1])
@@ -552,7 +556,12 @@ def run_mesh(P, L, c):
             P.note_max("mesh_rate_min_neg", -min(r1, r2))
             # resolutions double: O(h^2) -> ratios ~4; float32 vertices floor the error at ~1e-6
             if not (e2 < e1 < e0) or min(r1, r2) < 3.0 or max(r1, r2) > 5.5 or e2 > 0.05:
-                P.violation("mesh-not-converging-to-primitive:%s:%s" % (t, mode), wit)
+                if abs_hit:
+                    # one of the three meshes already failed against its own polyhedron because of the absolute eigen
+                    # threshold: the series cannot converge, same mechanism
+                    P.violation("principal-axes-absolute-eps:mesh-convergence", wit)
+                else:
+                    P.violation("mesh-not-converging-to-primitive:%s:%s" % (t, mode), wit)
 
 
 REJECTS = ["triangle", "fullinertia-indefinite", "negative-mass", "negative-diag"]
